@@ -1,8 +1,8 @@
 (* C13 -- generated arithmetic blocks compute the arithmetic they name.  Statements only; proofs in
    Proofs/LogicProofs.v (helpers, half/full adder, ripple-carry adder), Proofs/LogicMux.v, Proofs/LogicLint.v,
-   Proofs/LogicPop.v.  Widths are unbounded unless a statement says otherwise. *)
+   Proofs/LogicPop.v, Proofs/LogicPopAll.v.  Every width statement is unbounded (induction), none is a sample. *)
 From stdpp Require Import strings gmap sets numbers.
-From CG Require Import Model.Logic Model.Lint Proofs.LogicOracle Proofs.LogicProofs Proofs.LogicLint Proofs.LogicMux Proofs.LogicPop.
+From CG Require Import Model.Logic Model.Lint Proofs.LogicOracle Proofs.LogicProofs Proofs.LogicLint Proofs.LogicMux Proofs.LogicPop Proofs.LogicPopAll.
 Open Scope string_scope.
 
 (* ---------------------------------------------------------------- helpers of utils.py *)
@@ -70,17 +70,16 @@ Theorem C13_mux_rejects : mux 0 = Raise ValueError.
 Proof. exact mux_zero. Qed.
 Print Assumptions C13_mux_rejects.
 
-(* ---------------------------------------------------------------- popcount *)
-(* the statement at full strength -- NOT proved for every width; decided per generated width by the oracle *)
-Definition C13_popcount_full : Prop := ∀ w C v, 1 ≤ w → popcount w = Ok C → consistent (c_g C) v →
+(* ---------------------------------------------------------------- popcount, every width *)
+(* the out_ bits (as many as the block has outputs) are the binary count of ones on in_0 .. in_(w-1); lint-clean;
+   the generator returns a circuit for every w >= 1 (fuel S w of the queue loop suffices) *)
+Theorem C13_popcount : ∀ w C v, 1 ≤ w → popcount w = Ok C → consistent (c_g C) v →
   bitsN v "out_" (size (outputs (c_g C))) = onesN v "in_" w ∧ lint_clean C.
-(* proved part: widths 1..4 (exhaustive evaluation of the model's circuit, lifted to all consistent valuations by
-   popcount_ok_sound).  Missing: the induction over the adder queue for arbitrary w.  The building block is
-   covered for every width: C13_adder with carry_out gives the exact sum of two aw-bit numbers. *)
-Theorem C13_popcount_partial : ∀ w C v, 1 ≤ w ≤ 4 → popcount w = Ok C → consistent (c_g C) v →
-  bitsN v "out_" (size (outputs (c_g C))) = onesN v "in_" w ∧ lint_clean C.
-Proof. exact popcount_small. Qed.
-Print Assumptions C13_popcount_partial.
+Proof. intros w C v Hw HC Hv. split; [by eapply popcount_correct|by eapply popcount_lint_clean]. Qed.
+Print Assumptions C13_popcount.
+Theorem C13_popcount_total : ∀ w, 1 ≤ w → ∃ C, popcount w = Ok C.
+Proof. exact popcount_total. Qed.
+Print Assumptions C13_popcount_total.
 (* a positive oracle verdict on a returned circuit is the statement for all its consistent valuations *)
 Theorem C13_popcount_oracle_sound : ∀ w c v, popcount_ok w c = true → consistent c v →
   bitsN v "out_" (size (outputs c)) = onesN v "in_" w.
